@@ -163,6 +163,9 @@ let handle kind c =
     if exported && escaped then prop "panic-escaped" "a panic escaped the exported Run";
     if (not exported) && escaped && not escaped_rand then
       prop "panic-escaped" "the inner uploader.Run panicked although no entropy failure was injected";
+    (* C05_run_total: a panic is raised only if the plan fails a call (the entropy read) *)
+    if exported && recovered && not (List.exists (fun (_, k) -> k = FErr) plan_l) then
+      prop "panic-without-fault" "the exported Run recovered a panic although no call failed (the run did not do its work)";
     let init_local_names = List.map (fun (n, _) -> string_of_bytes n) local0 in
     let init_up_names = List.map (fun (n, _) -> string_of_bytes n) up0 in
     let expired x = before_start x.c_end cfg.u_start in
